@@ -85,8 +85,19 @@ def run(ctx):
     wbody = W.body
 
     # ---- R2: one row per address
-    ctx.check(W.stmt["conflict"] == "REPLACE", "R2", "insert-or-replace", ctx.where(wbody, W.term["sp"]),
-              "the lease write must be INSERT OR REPLACE (conflict clause is %s)" % W.stmt["conflict"])
+    conflict = W.stmt["conflict"]
+    replaces_all = conflict == "REPLACE"
+    detail = "conflict clause is %s" % conflict
+    if conflict == "UPSERT" and W.stmt.get("upsert"):
+        up = W.stmt["upsert"]
+        setcols = {c for c, e in up["set"] if e == ("col", c) or (e[0] == "col")}
+        need = {"clientid", "start", "expiry"}
+        replaces_all = up["target"] == ["address"] and need <= {c for c, _ in up["set"]} and all(
+            e == ("col", c) for c, e in up["set"] if c in need)
+        detail = "ON CONFLICT(%s) DO UPDATE SET %s — an existing row for the address must take over the new client id, start and expiry (missing: %s)" % (
+            ",".join(up["target"]), ",".join(c for c, _ in up["set"]), sorted(need - {c for c, _ in up["set"]}))
+    ctx.check(replaces_all, "R2", "insert-or-replace" if replaces_all else "conflict=%s:row-not-fully-replaced" % conflict, ctx.where(wbody, W.term["sp"]),
+              "the lease write must replace the whole row for the address (INSERT OR REPLACE, or an upsert that sets clientid, start, expiry): %s" % detail)
     creates = [s for s in lsql if s.stmt["kind"] == "create"]
     for s in creates:
         ctx.check(s.stmt["primary_key"] == ["address"], "R2", "primary-key(address)", ctx.where(s.body, s.term["sp"]),
